@@ -148,6 +148,10 @@ finding(
     "P61", ["C02"], "open", "function with a google docstring: once an earlier entry carries 'Defaults to', an entry with an EMPTY description gets the zero value of its type forced as default, and that overrides the real default of the signature (1e-07 -> 0.0)",
     witnesses={"C02": [I([["z", {"typ": "str", "doc": "model output.", "default": "A"}], ["u", {"typ": "float", "default": 1e-07}], ["a", {"typ": "float", "default": 1e-07}]], cells=[[2, "google", True]])]},
 )
+finding(
+    "P63", ["C01", "C02"], "open", "ReST + word_wrap: a string default with inner blanks that is wrapped inside its quotes ('Defaults to \"hello\\n    wide world\"') comes back with the line break / a doubled blank inside the value (found by the wrap-boundary sweep)",
+    witnesses={"C01": [I([["x", {"typ": "str", "doc": "weight re-use that well-known well-known with factor weight well-kn", "default": "hello wide world"}]], cells=[["rest", True, False, True, True]])]},
+)
 finding("P26", ["C07"], "open", "doctrans drops comments inside a rewritten multi-line def header")
 finding("P27", ["C07"], "open", "doctrans turns a one-line `def f(a=1): return a` into invalid Python")
 finding("P28", ["C07"], "open", "doctrans does not recognise a raw docstring r\"\"\"...\"\"\": a second string is inserted")
